@@ -60,6 +60,25 @@ struct Params {
     eff_limit: Option<usize>,
     eff_take: Option<usize>,
     map_stages: Vec<usize>,
+    /// small-scope mode (`fcv dfsc`): per source position the code of the terminal closure's future
+    /// (0 ready, 1 Pending+self-wake, 2 Pending+wake-later; +4 = resolves to Err) and of the map futures (0 ready, 1 wake-later)
+    small: Option<(Vec<u8>, Vec<u8>)>,
+}
+
+/// scope of the small sweep: one adapter stack x terminal x source kind per process
+#[derive(Clone, Copy, Debug)]
+pub struct SmallC {
+    pub stack: usize,
+    pub term: u8,
+    pub src_vec: bool,
+    pub max_len: usize,
+}
+thread_local! { static SMALLC: std::cell::Cell<Option<SmallC>> = std::cell::Cell::new(None); }
+pub fn n_stacks() -> usize {
+    STACKS.len()
+}
+pub fn vec_stack_ok(stack: usize) -> bool {
+    VEC_STACKS.contains(&stack)
 }
 thread_local! { static P: RefCell<Params> = RefCell::new(Params::default()); }
 fn p<T>(f: impl FnOnce(&mut Params) -> T) -> T {
@@ -105,6 +124,7 @@ impl WFut {
     /// role 1 = future returned by the terminal closure, role 2 = future returned by a map closure
     pub fn new(role: u8, pos: u64, stage: usize) -> WFut {
         let (seed, err_pct, never_pct, panic_pct) = p(|p| (p.seed, p.err_pct, p.never_pct, p.panic_pct));
+        let small_code: Option<u8> = p(|p| p.small.as_ref().map(|(t, m)| if role == 1 { t.get(pos as usize).cloned().unwrap_or(0) } else { m.get(pos as usize).cloned().unwrap_or(0) }));
         // the script depends on (seed, item, role, stage) only — not on the order of closure invocations
         let mut h = mix(mix(seed, pos * 16 + role as u64), stage as u64 + 99);
         let mut rnd = move || {
@@ -126,6 +146,15 @@ impl WFut {
             }
         }
         s.push(if role == 1 && (rnd() % 100) < err_pct as u64 { Step::Err } else { Step::Ok });
+        if let Some(c) = small_code {
+            s.clear();
+            match c & 3 {
+                1 => s.push(Step::PendSelf),
+                2 => s.push(Step::PendLater),
+                _ => {}
+            }
+            s.push(if role == 1 && c & 4 != 0 { Step::Err } else { Step::Ok });
+        }
         let id = w(|w| {
             if w.phase != Phase::Polling {
                 let ph = w.phase;
@@ -427,11 +456,45 @@ pub fn run(prop: &str, thorough: bool, case_seed: u64, sub: u64) -> ExecOut {
 /// `cancel`: Some(k) = drop the operation after exactly k polls (systematic sweep); None = as generated
 pub fn run_fault(prop: &str, thorough: bool, case_seed: u64, sub: u64, cancel: Option<usize>) -> ExecOut {
     reset(Src::Rng(case_seed), true);
+    SMALLC.with(|s| s.set(None));
+    run_inner(prop, thorough, case_seed, sub, cancel)
+}
+
+/// one pipeline execution of the small scope; the caller has installed the decision source (`Src::Script`)
+pub fn run_small(prop: &str, sc: SmallC) -> ExecOut {
+    SMALLC.with(|s| s.set(Some(sc)));
+    let o = run_inner(prop, false, 0, 0, Some(usize::MAX));
+    SMALLC.with(|s| s.set(None));
+    o
+}
+
+fn run_inner(prop: &str, thorough: bool, case_seed: u64, sub: u64, cancel: Option<usize>) -> ExecOut {
+    let sm = SMALLC.with(|s| s.get());
     let _ = sub;
     let c02 = prop == "C02";
     let (polls0, pend0) = w(|w| (w.st.root_polls, w.st.child_pending));
     // case parameters
     let params = w(|w| {
+        if let Some(sc) = sm {
+            w.midfire_pct = 0;
+            w.small_mode = true;
+            w.record_decisions = true;
+            let len = w.below(sc.max_len + 1);
+            let fallible = matches!(sc.term, 1 | 3);
+            // limits: 1, 2 or none; takes: 0, 1, 2 or more than there is (only those the stack uses matter: the unused
+            // ones are fixed, see below)
+            let st = STACKS[sc.stack];
+            let nl = st.matches("limit").count().min(3);
+            let nt = st.matches("take").count().min(3);
+            let mut limits: Vec<usize> = (0..nl).map(|_| [1usize, 2, 0][w.below(3)]).collect();
+            let mut takes: Vec<usize> = (0..nt).map(|_| [0usize, 1, 2, 100][w.below(4)]).collect();
+            limits.resize(3, 0);
+            takes.resize(3, 100);
+            let has_map = st.contains("map") || matches!(sc.term, 2 | 3);
+            let tcodes: Vec<u8> = (0..len).map(|_| w.below(3) as u8 + if fallible { 4 * w.below(2) as u8 } else { 0 }).collect();
+            let mcodes: Vec<u8> = (0..len).map(|_| if has_map { w.below(2) as u8 } else { 0 }).collect();
+            return Params { seed: 0, len, limits, takes, err_pct: 0, never_pct: 0, panic_pct: 0, stack: sc.stack, term: sc.term, src_vec: sc.src_vec, hint: 1, small: Some((tcodes, mcodes)), ..Default::default() };
+        }
         w.midfire_pct = 20;
         let term: u8 = match prop {
             "C13" => [0, 0, 0, 1][w.below(4)],
@@ -459,6 +522,23 @@ pub fn run_fault(prop: &str, thorough: bool, case_seed: u64, sub: u64, cancel: O
     // child 0 = the source (scripted stream, or a stand-in producer for the Vec source)
     let src_script: Vec<Step> = w(|w| {
         let mut s = vec![];
+        if sm.is_some() {
+            if !params.src_vec {
+                for _ in 0..params.len {
+                    match w.below(3) {
+                        1 => s.push(Step::PendSelf),
+                        2 => s.push(Step::PendLater),
+                        _ => {}
+                    }
+                    s.push(Step::Item);
+                }
+                if w.below(2) == 1 {
+                    s.push(Step::PendLater);
+                }
+            }
+            s.push(Step::End);
+            return s;
+        }
         for _ in 0..params.len {
             for _ in 0..w.below(3) {
                 s.push(if w.below(2) == 0 { Step::PendSelf } else { Step::PendLater });
@@ -481,7 +561,7 @@ pub fn run_fault(prop: &str, thorough: bool, case_seed: u64, sub: u64, cancel: O
         s
     });
     // a non-fused source: it would yield further items if it were polled again after `None` (it must not be)
-    let src_resumable = !params.src_vec && w(|w| w.chance(15));
+    let src_resumable = sm.is_none() && !params.src_vec && w(|w| w.chance(15));
     let src_script: Vec<Step> = if src_resumable {
         let mut s = src_script;
         let extra = 1 + w(|w| w.below(2));
@@ -552,7 +632,7 @@ pub fn run_fault(prop: &str, thorough: bool, case_seed: u64, sub: u64, cancel: O
         }
     };
     // (always draw, so that the schedule that follows does not depend on whether a sweep overrides the point)
-    let drawn = w(|w| if w.chance(if c02 { 40 } else { 15 }) { Some(w.below(9)) } else { None });
+    let drawn = if sm.is_some() { None } else { w(|w| if w.chance(if c02 { 40 } else { 15 }) { Some(w.below(9)) } else { None }) };
     let cancel_at = match cancel {
         Some(k) if k == usize::MAX => None,
         Some(k) => Some(k),
@@ -564,7 +644,8 @@ pub fn run_fault(prop: &str, thorough: bool, case_seed: u64, sub: u64, cancel: O
     let mut next_waker_id = 0usize;
     let mut prev_waker: Option<(usize, Waker)> = None;
     let mut cancelled = false;
-    let mut spurious_left = 2;
+    let mut spurious_left = if sm.is_some() { 1 } else { 2 };
+    let mut stale_left = 1usize;
     while fut.is_some() {
         steps += 1;
         PROGRESS.fetch_add(1, std::sync::atomic::Ordering::Relaxed);
@@ -588,29 +669,50 @@ pub fn run_fault(prop: &str, thorough: bool, case_seed: u64, sub: u64, cancel: O
             (runnable, o, n)
         });
         let mut opts: Vec<u8> = vec![];
-        if runnable {
-            opts.extend([0, 0]);
-        }
-        if !outstanding.is_empty() {
-            opts.extend([1, 1]);
-        }
-        if nwakers > 0 && w(|w| w.chance(10)) {
-            opts.push(2);
-        }
-        if spurious_left > 0 && !runnable && rl != RootLast::NotPolled && w(|w| w.chance(8)) {
-            opts.push(3);
+        if sm.is_some() {
+            // small scope: every applicable action once; one stale fire and one spurious poll per execution at most
+            if runnable {
+                opts.push(0);
+            }
+            if !outstanding.is_empty() {
+                opts.push(1);
+            }
+            if nwakers > 0 && stale_left > 0 && outstanding.is_empty() && !runnable {
+                opts.push(2);
+            }
+            if spurious_left > 0 && !runnable && rl != RootLast::NotPolled {
+                opts.push(3);
+            }
+            // (nothing applicable but the optional extras: also allow to stop here, i.e. treat them as optional)
+            if !opts.is_empty() && opts.iter().all(|o| *o >= 2) {
+                opts.push(9);
+            }
+        } else {
+            if runnable {
+                opts.extend([0, 0]);
+            }
+            if !outstanding.is_empty() {
+                opts.extend([1, 1]);
+            }
+            if nwakers > 0 && w(|w| w.chance(10)) {
+                opts.push(2);
+            }
+            if spurious_left > 0 && !runnable && rl != RootLast::NotPolled && w(|w| w.chance(8)) {
+                opts.push(3);
+            }
         }
         if opts.is_empty() {
             break;
         }
         match opts[w(|w| w.below(opts.len()))] {
+            9 => break,
             o @ (0 | 3) => {
                 if o == 3 {
                     spurious_left -= 1;
                     w(|w| w.st.spurious_polls += 1);
                 }
                 polls += 1;
-                let reuse = prev_waker.is_some() && w(|w| w.chance(10));
+                let reuse = sm.is_none() && prev_waker.is_some() && w(|w| w.chance(10));
                 let (wid, waker) = if reuse {
                     prev_waker.clone().unwrap()
                 } else {
@@ -673,7 +775,7 @@ pub fn run_fault(prop: &str, thorough: bool, case_seed: u64, sub: u64, cancel: O
             }
             1 => {
                 let c = outstanding[w(|w| w.below(outstanding.len()))];
-                let (i, bv) = w(|w| (w.ch[c].wakers.len() - 1, w.below(4) == 0));
+                let (i, bv) = w(|w| (w.ch[c].wakers.len() - 1, sm.is_none() && w.below(4) == 0));
                 fire(c, i, bv, FireCtx::Between);
                 w(|w| model::i1_check(w, "after fire"));
             }
@@ -682,8 +784,9 @@ pub fn run_fault(prop: &str, thorough: bool, case_seed: u64, sub: u64, cancel: O
                     let with: Vec<Cid> = w.ch.iter().enumerate().filter(|(_, c)| !c.wakers.is_empty()).map(|(i, _)| i).collect();
                     let c = with[w.below(with.len())];
                     let k = w.ch[c].wakers.len();
-                    (c, w.below(k), w.below(4) == 0)
+                    (c, w.below(k), sm.is_none() && w.below(4) == 0)
                 });
+                stale_left = stale_left.saturating_sub(1);
                 fire(c, i, bv, FireCtx::Between);
                 w(|w| model::i1_check(w, "after stale fire"));
             }
